@@ -115,6 +115,66 @@ def correspondence(rep, ctx):
             want_bf, want_mode = parse_frac(bq), unhexs(mq)
             if Fraction(repr(float(got[0]))) != want_bf or str(got[1]) != want_mode:
                 fail(f"branching_fraction/decay_mode({nm!r}, {x!r})", f"{got} vs listed ({float(want_bf)}, {want_mode!r})")
+    # ---- a non-default dataset (descendant-closed sub-chain, through the public constructors)
+    from oracle import subset_dataset
+    for k in range(12 if thorough else 3):
+        roots = r.sample(range(view.n), 2)
+        ds, names = subset_dataset(rd, view, roots, name=f"verif_subset_{k}")
+        for nm in names:
+            rep.case(("subset", k, nm))
+            rep.dist("sub-dataset")
+            try:
+                n1, n0 = rd.Nuclide(nm, ds), rd.Nuclide(nm)
+                same = (float(ds.half_life(nm, "d")) == float(dd.half_life(nm, "d")) and ds.half_life(nm, "readable") == dd.half_life(nm, "readable")
+                        and list(n1.progeny()) == list(n0.progeny()) and list(n1.branching_fractions()) == list(n0.branching_fractions())
+                        and list(n1.decay_modes()) == list(n0.decay_modes()) and float(n1.atomic_mass) == float(n0.atomic_mass))
+                for p_ in n0.progeny():
+                    if p_ in names:
+                        same = same and ds.branching_fraction(nm, p_) == dd.branching_fraction(nm, p_) and ds.decay_mode(nm, p_) == dd.decay_mode(nm, p_)
+                if not same:
+                    fail(f"sub-dataset of {[view.names[g] for g in roots]}", f"queries about {nm} differ from the full dataset")
+            except Exception as e:  # noqa: BLE001
+                fail(f"sub-dataset of {[view.names[g] for g in roots]}", f"query about {nm} raised {type(e).__name__}: {e}")
+        outsider = next(n for n in view.names if n not in names)
+        try:
+            ds.half_life(outsider)
+            fail(f"sub-dataset {k}", f"half_life({outsider!r}) accepted although it is not in that dataset")
+        except ValueError:
+            pass
+    # ---- the same scheme written with every progeny list in the opposite order, next to the default dataset in one
+    #      process: pairwise look-ups are about (parent, progeny), not about list positions
+    for k in range(6 if thorough else 2):
+        branching = [i for i in range(view.n) if len(view.children[i]) >= 2] if hasattr(view, "children") else []
+        roots = r.sample(branching, 2) if branching else r.sample(range(view.n), 2)
+        ds, names = subset_dataset(rd, view, roots, name=f"verif_reversed_{k}", reverse_links=True)
+        for q_, nm in enumerate(names):
+            n0 = rd.Nuclide(nm)
+            prog = [str(p_) for p_ in n0.progeny()]
+            others = r.sample(names, min(3, len(names)))
+            for p_ in prog + others:
+                if p_ not in names and p_ != "SF":
+                    continue
+                rep.case(("reversed", k, nm, p_))
+                rep.dist("reversed-list-dataset")
+                try:
+                    if q_ % 2:
+                        a = (dd.branching_fraction(nm, p_), dd.decay_mode(nm, p_))
+                        b = (ds.branching_fraction(nm, p_), ds.decay_mode(nm, p_))
+                    else:
+                        b = (ds.branching_fraction(nm, p_), ds.decay_mode(nm, p_))
+                        a = (dd.branching_fraction(nm, p_), dd.decay_mode(nm, p_))
+                    want = (0.0, "")
+                    if p_ in prog:
+                        j_ = prog.index(p_)
+                        want = (float(n0.branching_fractions()[j_]), str(n0.decay_modes()[j_]))
+                    if (float(a[0]), str(a[1])) != want or (float(b[0]), str(b[1])) != want:
+                        fail(f"branching_fraction/decay_mode({nm!r}, {p_!r})", f"default dataset gives {a}, the same scheme with "
+                             f"reversed progeny lists gives {b}; listed: {want}")
+                except Exception as e:  # noqa: BLE001
+                    fail(f"branching_fraction/decay_mode({nm!r}, {p_!r}) on two datasets", f"raised {type(e).__name__}: {e}")
+            rev = rd.Nuclide(nm, ds)
+            if list(rev.progeny()) != prog[::-1] or [float(x) for x in rev.branching_fractions()] != [float(x) for x in n0.branching_fractions()][::-1]:
+                fail(f"lists of {nm!r} on the reversed-list dataset", "do not follow that dataset's own lists")
     rep.corr["exhaustive"] = thorough
     rep.notes["mismatches"] = bad
 
